@@ -1,4 +1,5 @@
 import Firefly.Proof.AmlPasses
+import Firefly.Proof.AmlMethodInv
 import Firefly.Model.AmlShapes
 /-!
 `mergeScopeDirectives`: never a panic, the pool stays well-formed.  The pass frees objects while the walk holds
@@ -387,11 +388,13 @@ structure Shr (s s' : PState) : Prop where
   size : s'.tree.pool.size = s.tree.pool.size
   live : ∀ x, live s'.tree x = true → live s.tree x = true
   handle : s'.tableHandle = s.tableHandle
+  rs : s'.r = s.r ∧ s'.scopeStack = s.scopeStack ∧ s'.pkgEndStack = s.pkgEndStack ∧ s'.streamEnd = s.streamEnd
 
-theorem Shr.refl (s : PState) : Shr s s := ⟨rfl, fun _ h => h, rfl⟩
+theorem Shr.refl (s : PState) : Shr s s := ⟨rfl, fun _ h => h, rfl, rfl, rfl, rfl, rfl⟩
 theorem Shr.trans {a b c : PState} (h1 : Shr a b) (h2 : Shr b c) : Shr a c :=
-  ⟨by rw [h2.size, h1.size], fun x hx => h1.live x (h2.live x hx), by rw [h2.handle, h1.handle]⟩
-theorem Shr.ofMv {s s' : PState} (m : Mv s s') : Shr s s' := ⟨m.size, fun x hx => by rw [← m.live]; exact hx, m.handle⟩
+  ⟨by rw [h2.size, h1.size], fun x hx => h1.live x (h2.live x hx), by rw [h2.handle, h1.handle],
+   by rw [h2.rs.1, h1.rs.1], by rw [h2.rs.2.1, h1.rs.2.1], by rw [h2.rs.2.2.1, h1.rs.2.2.1], by rw [h2.rs.2.2.2, h1.rs.2.2.2]⟩
+theorem Shr.ofMv {s s' : PState} (m : Mv s s') : Shr s s' := ⟨m.size, fun x hx => by rw [← m.live]; exact hx, m.handle, m.rs⟩
 
 /-- relative to the state `s0` in which the visit of `X0` began, with `Mvd` the set of objects moved since:
 everything freed and everything moved was inside the subtree of `X0`, and behind a moved object in a sibling
@@ -409,8 +412,12 @@ theorem Ctx.refl (s : PState) (X0 : Nat) : Ctx s X0 (fun _ => False) s :=
 
 /-- a payload-free change of the parser state (counters) keeps the context -/
 theorem Ctx.ofTree {s0 s s' : PState} {X0 : Nat} {Mvd : Nat → Prop} (c : Ctx s0 X0 Mvd s) (ht : s'.tree = s.tree)
-    (hh : s'.tableHandle = s.tableHandle) : Ctx s0 X0 Mvd s' :=
-  ⟨⟨by rw [ht]; exact c.shr.size, fun x hx => c.shr.live x (by rw [← ht]; exact hx), by rw [hh]; exact c.shr.handle⟩,
+    (hh : s'.tableHandle = s.tableHandle)
+    (hrs : s'.r = s.r ∧ s'.scopeStack = s.scopeStack ∧ s'.pkgEndStack = s.pkgEndStack ∧ s'.streamEnd = s.streamEnd) :
+    Ctx s0 X0 Mvd s' :=
+  ⟨⟨by rw [ht]; exact c.shr.size, fun x hx => c.shr.live x (by rw [← ht]; exact hx), by rw [hh]; exact c.shr.handle,
+    by rw [hrs.1]; exact c.shr.rs.1, by rw [hrs.2.1]; exact c.shr.rs.2.1, by rw [hrs.2.2.1]; exact c.shr.rs.2.2.1,
+    by rw [hrs.2.2.2]; exact c.shr.rs.2.2.2⟩,
    fun y h1 h2 => c.freed y h1 (by rw [← ht]; exact h2), fun y h1 h2 => c.moved y (by rw [← ht]; exact h1) (by rw [← ht]; exact h2),
    c.inside, fun y h1 h2 => by rw [ht]; exact c.nx y (by rw [← ht]; exact h1) h2⟩
 
@@ -469,6 +476,7 @@ theorem Ctx.move {s0 s s2 : PState} {X0 : Nat} {Mvd : Nat → Prop} (c : Ctx s0 
 theorem Ctx.free {s0 s s1 : PState} {X0 : Nat} {Mvd : Nat → Prop} (c : Ctx s0 X0 Mvd s) (w : WF s.tree)
     {y : Nat} (hy : live s.tree y = true) (hin : anc s0.tree X0 y)
     (hsz : s1.tree.pool.size = s.tree.pool.size) (hh : s1.tableHandle = s.tableHandle)
+    (hrs : s1.r = s.r ∧ s1.scopeStack = s.scopeStack ∧ s1.pkgEndStack = s.pkgEndStack ∧ s1.streamEnd = s.streamEnd)
     (hlive : ∀ x, live s1.tree x = (live s.tree x && decide (x ≠ y)))
     (hP : ∀ x, x ≠ y → C13.P s1.tree x = C13.P s.tree x)
     (hNx : ∀ x, x ≠ y → Nx s1.tree x = if x = Pv s.tree y ∧ Pv s.tree y ≠ INV then Nx s.tree y else Nx s.tree x) :
@@ -477,7 +485,9 @@ theorem Ctx.free {s0 s s1 : PState} {X0 : Nat} {Mvd : Nat → Prop} (c : Ctx s0 
     intro x hx
     have := hlive x; rw [hx] at this
     simp only [Bool.true_eq, Bool.and_eq_true, decide_eq_true_eq] at this; exact this
-  refine ⟨⟨by rw [hsz]; exact c.shr.size, fun x hx => c.shr.live x (hl1 x hx).1, by rw [hh]; exact c.shr.handle⟩, ?_, ?_, c.inside, ?_⟩
+  refine ⟨⟨by rw [hsz]; exact c.shr.size, fun x hx => c.shr.live x (hl1 x hx).1, by rw [hh]; exact c.shr.handle,
+    by rw [hrs.1]; exact c.shr.rs.1, by rw [hrs.2.1]; exact c.shr.rs.2.1, by rw [hrs.2.2.1]; exact c.shr.rs.2.2.1,
+    by rw [hrs.2.2.2]; exact c.shr.rs.2.2.2⟩, ?_, ?_, c.inside, ?_⟩
   · intro z h1 h2
     by_cases hz : live s.tree z = true
     · have hzy : z = y := by
@@ -598,7 +608,7 @@ theorem move_full {s : PState} (h : TP s) {p T m : Nat} (hT : live s.tree T = tr
     have := h1.ofTree (s := { s with tree := t1 }) w2 hl2 sp2
     exact this
   refine ⟨{ s with tree := t1 }, { s with tree := t2 }, tree_ex e1, tree_ex e2, h2,
-    ⟨by show t2.pool.size = _; rw [hsz2, hsz1], fun x => by show live t2 x = _; rw [hl2, hl1], rfl⟩, rfl, sp1.trans sp2, ?_, ?_, ?_, ?_⟩
+    ⟨by show t2.pool.size = _; rw [hsz2, hsz1], fun x => by show live t2 x = _; rw [hl2, hl1], rfl, rfl, rfl, rfl, rfl⟩, rfl, sp1.trans sp2, ?_, ?_, ?_, ?_⟩
   · intro x
     show C13.P t2 x = _
     rw [hP2]
@@ -651,6 +661,15 @@ structure MI (d : Bytes) (s : PState) : Prop where
   rootP : C13.P s.tree 0 = INV
   rootOp : (slot s.tree 0).opcode = opIntScopeBlock
   shape : ∀ x, IsDir s x → ShapeAt d s.tree x
+
+/-- `MergeInv` and — when `b` holds — the shape of the `Method` objects (`MInv`).  The tree passes keep both; with
+`b := False` this is `MergeInv` alone -/
+structure MIJ (b : Prop) (d : Bytes) (s : PState) : Prop extends MI d s where
+  mth : b → MInv s
+
+theorem MIJ.ofMI {d : Bytes} {s : PState} (h : MI d s) : MIJ False d s := ⟨h, fun hb => hb.elim⟩
+
+variable {b : Prop}
 
 theorem pay_opcode {o o' : Obj} (h : Pay o' = Pay o) : o'.opcode = o.opcode := congrArg (fun p => p.1) h
 theorem pay_info {o o' : Obj} (h : Pay o' = Pay o) : o'.infoIndex = o.infoIndex := congrArg (fun p => p.2.1) h
@@ -789,10 +808,10 @@ theorem MI.move {d : Bytes} {s s2 : PState} (h : MI d s) (h2 : TP s2) (m2 : Mv s
 
 /-- the contents loop of a merge: every child of the contents block `c` goes to the end of the list of `T` -/
 theorem moveContents_np {d : Bytes} {s0 : PState} {X0 : Nat} (w0 : WF s0.tree) (c T : Nat) :
-    ∀ (f sib : Nat) {s : PState} {Mvd : Nat → Prop}, MI d s → Ctx s0 X0 Mvd s →
+    ∀ (f sib : Nat) {s : PState} {Mvd : Nat → Prop}, MIJ b d s → Ctx s0 X0 Mvd s →
     live s.tree c = true → (slot s.tree c).opcode = opIntScopeBlock → live s.tree T = true →
     (slot s.tree T).opcode = opIntScopeBlock → T ≠ c → ¬ anc s.tree c T → anc s0.tree X0 c → sib = Fi s.tree c →
-    NPs (moveContents c T f sib) s (fun _ s' => MI d s' ∧
+    NPs (moveContents c T f sib) s (fun _ s' => MIJ b d s' ∧
       (∃ Mvd', (∀ y, Mvd y → Mvd' y) ∧ Ctx s0 X0 Mvd' s' ∧ (sib ≠ INV → Mvd' sib)) ∧ Mv s s' ∧
       Fi s'.tree c = INV ∧ SamePay s.tree s'.tree ∧
       (∀ x, C13.P s.tree x ≠ c → C13.P s'.tree x = C13.P s.tree x) ∧
@@ -830,7 +849,10 @@ theorem moveContents_np {d : Bytes} {s0 : PState} {X0 : Nat} (w0 : WF s0.tree) (
         move_full h.tp hT hm hpm hc hTc (isAnc_false_of_not_anc w hT hna _)
       refine NPs.step e1 ?_
       refine NPs.step e2 ?_
-      have hi2 : MI d s2 := h.move h2 m2 sp2 hc hcop hT hTop hm hpm hP2 hNx2 hFL2
+      have hi2 : MIJ b d s2 := ⟨h.toMI.move h2 m2 sp2 hc hcop hT hTop hm hpm hP2 hNx2 hFL2, fun hb =>
+        (h.mth hb).move' w m2.live sp2 hm hpm hc hT hP2 (fun x h1 h2 => (hFL2 x h1 h2).1)
+          (by rw [← hpm]; exact nx_weak w hT hm hNx2) (by rw [hcop]; exact sb_ne_method) (by rw [hTop]; exact sb_ne_method)
+          (Or.inr hTop)⟩
       have ctx2 := ctx.move w m2 hm (ctx.inside_child w0 hm hpm hcin) hP2 hNx2
       -- the chain of `T` is untouched: `c` is still not one of its ancestors
       have fr : Frame s s2 T := by
@@ -887,10 +909,10 @@ theorem fi_ne_of_child {t : ObjectTree} (w : WF t) {q y : Nat} (hq : live t q = 
   rw [this] at hm; cases hm
 
 /-- the three `free`s at the end of a merge: the (childless) name, the emptied contents block, the directive -/
-theorem freeTriple {d : Bytes} {s0 s : PState} {X0 : Nat} {Mvd : Nat → Prop} (w0 : WF s0.tree) (h : MI d s)
+theorem freeTriple {d : Bytes} {s0 s : PState} {X0 : Nat} {Mvd : Nat → Prop} (w0 : WF s0.tree) (h : MIJ b d s)
     (ctx : Ctx s0 X0 Mvd s) {X : Nat} (hX : IsDir s X) (hcf : Fi s.tree (La s.tree X) = INV) (hin : anc s0.tree X0 X) :
     ∃ s1 s2 s3, tree (·.free (Fi s.tree X)) s = .ok ((), s1) ∧ tree (·.free (La s.tree X)) s1 = .ok ((), s2) ∧
-      tree (·.free X) s2 = .ok ((), s3) ∧ MI d s3 ∧ Ctx s0 X0 Mvd s3 ∧ s3 = { s with tree := s3.tree } ∧
+      tree (·.free X) s2 = .ok ((), s3) ∧ MIJ b d s3 ∧ Ctx s0 X0 Mvd s3 ∧ s3 = { s with tree := s3.tree } ∧
       (∀ y, live s3.tree y = (((live s.tree y && decide (y ≠ Fi s.tree X)) && decide (y ≠ La s.tree X)) && decide (y ≠ X))) := by
   obtain ⟨hXl, hXop, hXh, hXf⟩ := hX
   have w := h.tp.wf
@@ -933,7 +955,7 @@ theorem freeTriple {d : Bytes} {s0 s : PState} {X0 : Nat} {Mvd : Nat → Prop} (
   have hfc1 : Fi s1.tree (La s.tree X) = INV := by
     rw [(hFL1 _ (Ne.symm hnc) hcl).1, if_neg (fun hc => hXc (by rw [hnp] at hc; exact hc.1.symm))]; exact hcf
   have hcp1 : C13.P s1.tree (La s.tree X) = X := by rw [hP1 _ (Ne.symm hnc)]; exact hcp
-  have ctx1 : Ctx s0 X0 Mvd s1 := ctx.free w hnl (ctx.inside_child w0 hnl hnp hin) hsz1 (by rw [hs1]) hl1 hP1 hNx1
+  have ctx1 : Ctx s0 X0 Mvd s1 := ctx.free w hnl (ctx.inside_child w0 hnl hnp hin) hsz1 (by rw [hs1]) (by rw [hs1]; exact ⟨rfl, rfl, rfl, rfl⟩) hl1 hP1 hNx1
   -- free the contents block
   obtain ⟨s2, e2, h2, hs2, hsz2, hl2, hpay2, hP2, hNx2, hFL2⟩ :=
     free_step h1 hcl1 hfc1 ((h1.wf.lP hcl1).ends.1 hfc1) hc0
@@ -946,11 +968,11 @@ theorem freeTriple {d : Bytes} {s0 s : PState} {X0 : Nat} {Mvd : Nat → Prop} (
   have hfX2 : Fi s2.tree X = INV := by
     rw [(hFL2 X hXc hXl1).1, if_pos ⟨hcp1.symm, hfX1⟩, hNx1' _ (Ne.symm hnc)]; exact hcnx
   have ctx2 : Ctx s0 X0 Mvd s2 :=
-    ctx1.free h1.wf hcl1 (ctx1.inside_child w0 hcl1 hcp1 hin) hsz2 (by rw [hs2]) hl2 hP2 hNx2
+    ctx1.free h1.wf hcl1 (ctx1.inside_child w0 hcl1 hcp1 hin) hsz2 (by rw [hs2]) (by rw [hs2]; exact ⟨rfl, rfl, rfl, rfl⟩) hl2 hP2 hNx2
   -- free the directive
   obtain ⟨s3, e3, h3, hs3, hsz3, hl3, hpay3, hP3, hNx3, hFL3⟩ :=
     free_step h2 hXl2 hfX2 ((h2.wf.lP hXl2).ends.1 hfX2) hX0
-  have ctx3 : Ctx s0 X0 Mvd s3 := ctx2.free h2.wf hXl2 hin hsz3 (by rw [hs3]) hl3 hP3 hNx3
+  have ctx3 : Ctx s0 X0 Mvd s3 := ctx2.free h2.wf hXl2 hin hsz3 (by rw [hs3]) (by rw [hs3]; exact ⟨rfl, rfl, rfl, rfl⟩) hl3 hP3 hNx3
   have hlive3 : ∀ y, live s3.tree y = true → live s.tree y = true ∧ y ≠ Fi s.tree X ∧ y ≠ La s.tree X ∧ y ≠ X := by
     intro y hy
     have a3 := hl3 y; rw [hy] at a3
@@ -964,7 +986,7 @@ theorem freeTriple {d : Bytes} {s0 s : PState} {X0 : Nat} {Mvd : Nat → Prop} (
     intro y a b c; rw [hpay3 y c, hpay2 y b, hpay1 y a]
   have hPall : ∀ y, y ≠ Fi s.tree X → y ≠ La s.tree X → y ≠ X → C13.P s3.tree y = C13.P s.tree y := by
     intro y a b c; rw [hP3 y c, hP2 y b, hP1 y a]
-  refine ⟨s1, s2, s3, e1, e2, e3, ⟨h3, ?_, ?_, ?_⟩, ctx3, by rw [hs3, hs2, hs1], fun y => by rw [hl3, hl2, hl1]⟩
+  refine ⟨s1, s2, s3, e1, e2, e3, ⟨⟨h3, ?_, ?_, ?_⟩, ?_⟩, ctx3, by rw [hs3, hs2, hs1], fun y => by rw [hl3, hl2, hl1]⟩
   · rw [hPall 0 (Ne.symm hn0) (Ne.symm hc0) (Ne.symm hX0)]; exact h.rootP
   · rw [pay_opcode (hpay 0 (Ne.symm hn0) (Ne.symm hc0) (Ne.symm hX0))]; exact h.rootOp
   · -- the other directives keep their shape
@@ -1046,11 +1068,23 @@ theorem freeTriple {d : Bytes} {s0 s : PState} {X0 : Nat} {Mvd : Nat → Prop} (
       rw [← hc.1, hPX2, hP2 _ n2, hP1 _ n1, hnxp] at this
       exact hxq this
     exact shx.transfer hxpay hfi hlax (hpay _ n1 n2 n3) hnf hnn (hpay _ c1 c2 c3)
+  · -- the methods: what is freed hangs under the directive, and the directive under no method
+    intro hb
+    have hXop1 : (slot s1.tree X).opcode = opScope := by rw [pay_opcode (hpay1 X hXn)]; exact hXop
+    have hXop2 : (slot s2.tree X).opcode = opScope := by rw [pay_opcode (hpay2 X hXc)]; exact hXop1
+    have J1 : MInv s1 := (h.mth hb).free w hnl hl1 hpay1 hP1 hNx1 hFL1
+      (Or.inr (by rw [hnp, hXop]; exact scope_ne_method)) hn0
+    have J2 : MInv s2 := J1.free h1.wf hcl1 hl2 hpay2 hP2 hNx2 hFL2
+      (Or.inr (by rw [hcp1, hXop1]; exact scope_ne_method)) hc0
+    refine J2.free h2.wf hXl2 hl3 hpay3 hP3 hNx3 hFL3 ?_ hX0
+    rcases (h2.wf.lP hXl2).lp with h0 | h0
+    · exact Or.inl h0
+    · exact Or.inr (J2.parent_not_method h2.wf hXl2 h0 (Or.inr hXop2))
 
 /-- the `pOpScope` case of `mergeScopeDirectives` for a shaped directive `X` -/
 theorem mergeScope_np {d : Bytes} (fuel : Nat) {s0 : PState} {X0 : Nat} (w0 : WF s0.tree) {s : PState} {Mvd : Nat → Prop}
-    (h : MI d s) (ctx : Ctx s0 X0 Mvd s) {X : Nat} (hX : IsDir s X) (hin : anc s0.tree X0 X) :
-    NPs (mergeScope d fuel X) s (fun r s' => MI d s' ∧ s'.tableHandle = s.tableHandle ∧
+    (h : MIJ b d s) (ctx : Ctx s0 X0 Mvd s) {X : Nat} (hX : IsDir s X) (hin : anc s0.tree X0 X) :
+    NPs (mergeScope d fuel X) s (fun r s' => MIJ b d s' ∧ s'.tableHandle = s.tableHandle ∧
       ∃ Mvd', (∀ y, Mvd y → Mvd' y) ∧ Ctx s0 X0 Mvd' s' ∧
         (∀ f1, r = .inr f1 → f1 = INV ∨ (live s'.tree f1 = true ∧ Mvd' f1))) := by
   obtain ⟨hXl, hXop, hXh, hXf⟩ := hX
@@ -1068,7 +1102,7 @@ theorem mergeScope_np {d : Bytes} (fuel : Nat) {s0 : PState} {X0 : Nat} (w0 : WF
     · exact h1
   have hcp : C13.P s.tree (La s.tree X) = X := (lX.la hla).1
   have hXne : X ≠ INV := live_ne_INV w.size_le hXl
-  have same : MI d s ∧ s.tableHandle = s.tableHandle ∧ ∃ Mvd', (∀ y, Mvd y → Mvd' y) ∧ Ctx s0 X0 Mvd' s ∧
+  have same : MIJ b d s ∧ s.tableHandle = s.tableHandle ∧ ∃ Mvd', (∀ y, Mvd y → Mvd' y) ∧ Ctx s0 X0 Mvd' s ∧
       (∀ f1, (Sum.inl PRes.failed : Sum PRes Nat) = .inr f1 → f1 = INV ∨ (live s.tree f1 = true ∧ Mvd' f1)) :=
     ⟨h, rfl, Mvd, fun _ hy => hy, ctx, fun f1 hc => by cases hc⟩
   unfold mergeScope
@@ -1161,8 +1195,9 @@ theorem mergeScope_np {d : Bytes} (fuel : Nat) {s0 : PState} {X0 : Nat} (w0 : WF
       have e9 : (modify fun s => { s with mergedScopes := u32 (s.mergedScopes + 1) } : P Unit) s8 =
           .ok ((), { s8 with mergedScopes := u32 (s8.mergedScopes + 1) }) := rfl
       refine NPs.step e9 ?_
-      refine NPs.pure ⟨⟨⟨h8.tp.wf, h8.tp.root, h8.tp.info⟩, h8.rootP, h8.rootOp, fun x hx => h8.shape x hx⟩, ?_,
-        Mvd5, hsub5, ctx8.ofTree rfl rfl, ?_⟩
+      refine NPs.pure ⟨⟨⟨⟨h8.tp.wf, h8.tp.root, h8.tp.info⟩, h8.rootP, h8.rootOp, fun x hx => h8.shape x hx⟩,
+          fun hb => (h8.mth hb).ofTree rfl⟩, ?_,
+        Mvd5, hsub5, ctx8.ofTree rfl rfl ⟨rfl, rfl, rfl, rfl⟩, ?_⟩
       · show s8.tableHandle = _
         rw [hs8, m5.handle]
       · intro f1 hf1
@@ -1214,13 +1249,13 @@ def Good (s0 : PState) (X0 : Nat) (Mvd : Nat → Prop) (s : PState) (sib : Nat) 
 
 /-- `mergeScopeDirectives` and the loop over the children, by induction on the fuel -/
 theorem merge_np (d : Bytes) : ∀ (f : Nat),
-    (∀ {s0 s : PState} {X0 : Nat} {Mvd : Nat → Prop} (X : Nat), WF s0.tree → MI d s → Ctx s0 X0 Mvd s →
+    (∀ {s0 s : PState} {X0 : Nat} {Mvd : Nat → Prop} (X : Nat), WF s0.tree → MIJ b d s → Ctx s0 X0 Mvd s →
       live s.tree X = true → anc s0.tree X0 X →
-      NPs (mergeScopeDirectives d f X) s (fun _ s' => MI d s' ∧ s'.tableHandle = s.tableHandle ∧
+      NPs (mergeScopeDirectives d f X) s (fun _ s' => MIJ b d s' ∧ s'.tableHandle = s.tableHandle ∧
         ∃ Mvd', (∀ y, Mvd y → Mvd' y) ∧ Ctx s0 X0 Mvd' s')) ∧
-    (∀ {s0 s : PState} {X0 : Nat} {Mvd : Nat → Prop} (sib : Nat) (res : PRes), WF s0.tree → MI d s → Ctx s0 X0 Mvd s →
+    (∀ {s0 s : PState} {X0 : Nat} {Mvd : Nat → Prop} (sib : Nat) (res : PRes), WF s0.tree → MIJ b d s → Ctx s0 X0 Mvd s →
       Good s0 X0 Mvd s sib →
-      NPs (mergeLoop d f sib res) s (fun _ s' => MI d s' ∧ s'.tableHandle = s.tableHandle ∧
+      NPs (mergeLoop d f sib res) s (fun _ s' => MIJ b d s' ∧ s'.tableHandle = s.tableHandle ∧
         ∃ Mvd', (∀ y, Mvd y → Mvd' y) ∧ Ctx s0 X0 Mvd' s')) := by
   intro f
   induction f with
@@ -1237,6 +1272,7 @@ theorem merge_np (d : Bytes) : ∀ (f : Nat),
       refine NPs.step (getObj_live hXl) ?_
       -- the counter reset does not touch the tree
       have cont : ∀ sa : PState, sa.tree = s.tree → sa.tableHandle = s.tableHandle →
+          (sa.r = s.r ∧ sa.scopeStack = s.scopeStack ∧ sa.pkgEndStack = s.pkgEndStack ∧ sa.streamEnd = s.streamEnd) →
           NPs (do
             let flags ← optP (opFlags (slot s.tree X).infoIndex)
             if hasFlag flags flagExecutable = true then pure PRes.ok
@@ -1250,13 +1286,13 @@ theorem merge_np (d : Bytes) : ∀ (f : Nat),
                         | Sum.inl res => pure res
                         | Sum.inr firstArgIndex => mergeLoop d f firstArgIndex PRes.ok
                   else mergeLoop d f (slot s.tree X).firstArgIndex PRes.ok) sa
-            (fun _ s' => MI d s' ∧ s'.tableHandle = s.tableHandle ∧ ∃ Mvd', (∀ y, Mvd y → Mvd' y) ∧ Ctx s0 X0 Mvd' s') := by
-        intro sa hta hha
-        have ha : MI d sa := ⟨⟨by rw [hta]; exact h.tp.wf, by rw [hta]; exact h.tp.root, by rw [hta]; exact h.tp.info⟩,
+            (fun _ s' => MIJ b d s' ∧ s'.tableHandle = s.tableHandle ∧ ∃ Mvd', (∀ y, Mvd y → Mvd' y) ∧ Ctx s0 X0 Mvd' s') := by
+        intro sa hta hha hrsa
+        have ha : MIJ b d sa := ⟨⟨⟨by rw [hta]; exact h.tp.wf, by rw [hta]; exact h.tp.root, by rw [hta]; exact h.tp.info⟩,
           by rw [hta]; exact h.rootP, by rw [hta]; exact h.rootOp,
           fun x hx => by rw [hta]; exact h.shape x ⟨by rw [← hta]; exact hx.1, by rw [← hta]; exact hx.2.1,
-            by rw [← hta, ← hha]; exact hx.2.2.1, by rw [← hta]; exact hx.2.2.2⟩⟩
-        have ctxa : Ctx s0 X0 Mvd sa := ctx.ofTree hta hha
+            by rw [← hta, ← hha]; exact hx.2.2.1, by rw [← hta]; exact hx.2.2.2⟩⟩, fun hb => (h.mth hb).ofTree hta⟩
+        have ctxa : Ctx s0 X0 Mvd sa := ctx.ofTree hta hha hrsa
         have hXla : live sa.tree X = true := by rw [hta]; exact hXl
         obtain ⟨fl, hfl⟩ := opFlags_of_info (h.tp.info X hXl)
         rw [hfl]
@@ -1304,9 +1340,9 @@ theorem merge_np (d : Bytes) : ∀ (f : Nat),
       by_cases h00 : X = 0
       · rw [if_pos h00]
         refine NPs.step (s1 := { s with mergedScopes := 0 }) (a := ()) rfl ?_
-        exact cont _ rfl rfl
+        exact cont _ rfl rfl ⟨rfl, rfl, rfl, rfl⟩
       · rw [if_neg h00]
-        exact cont s rfl rfl
+        exact cont s rfl rfl ⟨rfl, rfl, rfl, rfl⟩
     · intro s0 s X0 Mvd sib res w0 h ctx hg
       unfold mergeLoop
       by_cases h0 : sib = invalidIndex
@@ -1369,7 +1405,7 @@ theorem merge_np (d : Bytes) : ∀ (f : Nat),
                   · exact absurd (ctx.moved _ hNl hne) hMN
                 rw [e1, ← e2, hNp]; exact hq0
         have loop : ∀ res', NPs (mergeLoop d f (slot s.tree sib).nextSiblingIndex res') s1
-            (fun _ s' => MI d s' ∧ s'.tableHandle = s.tableHandle ∧ ∃ Mvd', (∀ y, Mvd y → Mvd' y) ∧ Ctx s0 X0 Mvd' s') := by
+            (fun _ s' => MIJ b d s' ∧ s'.tableHandle = s.tableHandle ∧ ∃ Mvd', (∀ y, Mvd y → Mvd' y) ∧ Ctx s0 X0 Mvd' s') := by
           intro res'
           refine (ih.2 _ res' w0 h1 ctx1 hgN).mono ?_
           intro _ s' hq'
@@ -1417,7 +1453,7 @@ theorem move_any {s : PState} (h : TP s) {T m : Nat} (hT : live s.tree T = true)
       simp [C13.isAncestorOrSelf, e]
     rw [this] at hanc; cases hanc
   refine ⟨{ s with tree := t1 }, { s with tree := t2 }, tree_ex e1, tree_ex e2, h2,
-    ⟨by show t2.pool.size = _; rw [hsz2, hsz1], fun x => by show live t2 x = _; rw [hl2, hl1], rfl⟩, rfl, sp1.trans sp2,
+    ⟨by show t2.pool.size = _; rw [hsz2, hsz1], fun x => by show live t2 x = _; rw [hl2, hl1], rfl, rfl, rfl, rfl, rfl⟩, rfl, sp1.trans sp2,
     ?_, ?_, ?_, ?_⟩
   · intro x
     show C13.P t2 x = _
@@ -1535,11 +1571,11 @@ theorem MI.upd {d : Bytes} {s s1 : PState} (h : MI d s) (h1 : TP s1) (m1 : Mv s 
       exact ⟨off, len, by rw [sl.fi, hoth _ hn]; exact hv, he⟩
 
 /-- the relocation of one named object keeps the merge invariant -/
-theorem relocateOne_mi (d : Bytes) (fuel : Nat) {s : PState} (h : MI d s) {obj : Nat} (ho : live s.tree obj = true)
+theorem relocateOne_mi (d : Bytes) (fuel : Nat) {s : PState} (h : MIJ b d s) {obj : Nat} (ho : live s.tree obj = true)
     (hp : C13.P s.tree obj ≠ INV) (hfi : Fi s.tree obj ≠ INV) (hnsb : (slot s.tree obj).opcode ≠ opIntScopeBlock)
     (hnamed : ∃ fl, opFlags (slot s.tree obj).infoIndex = some fl ∧ hasFlag fl flagNamed = true)
     (off len : Nat) (bytes : List UInt8) :
-    NPs (relocateOne d fuel obj off len bytes) s (fun _ s' => MI d s' ∧ Mv s s' ∧ KeepAtt s s') := by
+    NPs (relocateOne d fuel obj off len bytes) s (fun _ s' => MIJ b d s' ∧ Mv s s' ∧ KeepAtt s s') := by
   have htp := h.tp
   have w := htp.wf
   unfold relocateOne
@@ -1604,7 +1640,9 @@ theorem relocateOne_mi (d : Bytes) (fuel : Nat) {s : PState} (h : MI d s) {obj :
           rcases dir_kids w hx.1 hx.2.2.2 shx ho e with e' | e'
           · exact hfi (by rw [e']; exact shx.nkids)
           · exact hnsb (by rw [e']; exact shx.cop)
-        have hi4 : MI d s4 := h.reloc h4 m4 sp4 htg htop ho hpl hnd hP4 hFL4 hNx4
+        have hi4 : MIJ b d s4 := ⟨h.toMI.reloc h4 m4 sp4 htg htop ho hpl hnd hP4 hFL4 hNx4, fun hb =>
+          (h.mth hb).move w m4.live sp4 ho hpl htg hP4 (fun x h1 h2 => (hFL4 x h1 h2).1) hNx4
+            ((h.mth hb).parent_not_method w ho hpl (Or.inl ⟨hfi, hnsb⟩)) (by rw [htop]; exact sb_ne_method) (Or.inr htop)⟩
         have ho4 : live s4.tree obj = true := by rw [m4.live]; exact ho
         refine NPs.step (getObj_live ho4) ?_
         have hfl4 : live s4.tree (Fi s4.tree obj) = true := by
@@ -1643,17 +1681,21 @@ theorem relocateOne_mi (d : Bytes) (fuel : Nat) {s : PState} (h : MI d s) {obj :
           have hinfo : (slot s4.tree obj).infoIndex = (slot s2.tree obj).infoIndex := pay_info (sp4.pay obj)
           have := scope_row_not_named fl (by rw [← shx.info, hxo, hinfo]; exact hfl)
           rw [hnm] at this; cases this
-        have hi5 : MI d s5 := hi4.upd h5 m5 sl5 hoth5 (by rw [hself5, hfvd]; exact ⟨rfl, rfl, rfl, rfl⟩) hni
+        have hi5 : MIJ b d s5 := ⟨hi4.toMI.upd h5 m5 sl5 hoth5 (by rw [hself5, hfvd]; exact ⟨rfl, rfl, rfl, rfl⟩) hni, fun hb =>
+          (hi4.mth hb).upd h4.wf sl5 hoth5 (by rw [hself5, hfvd]) (by rw [hself5, hfvd])
+            (Or.inr ((h4.wf.lP ho4).fi (by rw [hFo4]; exact hfi)).2) (Or.inr ⟨_, _, by rw [hself5, hfvd]⟩)⟩
         have e6 : (modify fun s => { s with relocatedObjects := u32 (s.relocatedObjects + 1) } : P Unit) s5 =
             .ok ((), { s5 with relocatedObjects := u32 (s5.relocatedObjects + 1) }) := rfl
         refine NPs.step e6 ?_
-        refine NPs.pure ⟨⟨⟨h5.wf, h5.root, h5.info⟩, hi5.rootP, hi5.rootOp, fun x hx => hi5.shape x hx⟩, ⟨?_, ?_, ?_⟩, ?_⟩
+        refine NPs.pure ⟨⟨⟨⟨h5.wf, h5.root, h5.info⟩, hi5.rootP, hi5.rootOp, fun x hx => hi5.shape x hx⟩,
+          fun hb => (hi5.mth hb).ofTree rfl⟩, ⟨?_, ?_, ?_, ?_⟩, ?_⟩
         · show s5.tree.pool.size = _
           rw [m5.size, m4.size]
         · intro x; show live s5.tree x = _
           rw [m5.live, m4.live]
         · show s5.tableHandle = _
           rw [m5.handle, m4.handle]
+        · exact (m4.trans m5).rs
         · intro x hx
           show C13.P s5.tree x ≠ INV
           rw [sl5.p, hP4]
@@ -1661,10 +1703,10 @@ theorem relocateOne_mi (d : Bytes) (fuel : Nat) {s : PState} (h : MI d s) {obj :
           · exact live_ne_INV w.size_le htg
           · exact hx
 
-theorem relocateNamed_mi (d : Bytes) (fuel : Nat) {s : PState} (h : MI d s) {obj : Nat} (ho : live s.tree obj = true)
+theorem relocateNamed_mi (d : Bytes) (fuel : Nat) {s : PState} (h : MIJ b d s) {obj : Nat} (ho : live s.tree obj = true)
     (hp : C13.P s.tree obj ≠ INV) (hfi : Fi s.tree obj ≠ INV) (hnsb : (slot s.tree obj).opcode ≠ opIntScopeBlock)
     (hnamed : ∃ fl, opFlags (slot s.tree obj).infoIndex = some fl ∧ hasFlag fl flagNamed = true) :
-    NPs (relocateNamed d fuel obj) s (fun _ s' => MI d s' ∧ Mv s s' ∧ KeepAtt s s') := by
+    NPs (relocateNamed d fuel obj) s (fun _ s' => MIJ b d s' ∧ Mv s s' ∧ KeepAtt s s') := by
   unfold relocateNamed
   refine NPs.step (getObj_live ho) ?_
   have hfl : live s.tree (Fi s.tree obj) = true := by
@@ -1682,11 +1724,11 @@ theorem relocateNamed_mi (d : Bytes) (fuel : Nat) {s : PState} (h : MI d s) {obj
 
 /-- `relocateNamedObjects` and its loop over the children, by induction on the fuel -/
 theorem relocate_mi (d : Bytes) : ∀ (f : Nat),
-    (∀ {s : PState} (objIndex : Nat), MI d s → live s.tree objIndex = true →
+    (∀ {s : PState} (objIndex : Nat), MIJ b d s → live s.tree objIndex = true →
       (C13.P s.tree objIndex ≠ INV ∨ (slot s.tree objIndex).opcode = opIntScopeBlock) →
-      NPs (relocateNamedObjects d f objIndex) s (fun _ s' => MI d s' ∧ Mv s s' ∧ KeepAtt s s')) ∧
-    (∀ {s : PState} (sib : Nat) (res : PRes), MI d s → (sib = INV ∨ (live s.tree sib = true ∧ C13.P s.tree sib ≠ INV)) →
-      NPs (relocateLoop d f sib res) s (fun _ s' => MI d s' ∧ Mv s s' ∧ KeepAtt s s')) := by
+      NPs (relocateNamedObjects d f objIndex) s (fun _ s' => MIJ b d s' ∧ Mv s s' ∧ KeepAtt s s')) ∧
+    (∀ {s : PState} (sib : Nat) (res : PRes), MIJ b d s → (sib = INV ∨ (live s.tree sib = true ∧ C13.P s.tree sib ≠ INV)) →
+      NPs (relocateLoop d f sib res) s (fun _ s' => MIJ b d s' ∧ Mv s s' ∧ KeepAtt s s')) := by
   intro f
   induction f with
   | zero =>
@@ -1705,6 +1747,7 @@ theorem relocate_mi (d : Bytes) : ∀ (f : Nat),
       refine NPs.step (optP_ex fl s) ?_
       -- the counter reset does not touch the tree
       have cont : ∀ s0 : PState, s0.tree = s.tree → s0.tableHandle = s.tableHandle →
+          (s0.r = s.r ∧ s0.scopeStack = s.scopeStack ∧ s0.pkgEndStack = s.pkgEndStack ∧ s0.streamEnd = s.streamEnd) →
           NPs (if hasFlag fl flagExecutable = true then pure PRes.ok
             else do
               let __do_lift ← tableHandle
@@ -1717,16 +1760,16 @@ theorem relocate_mi (d : Bytes) : ∀ (f : Nat),
                       let __do_lift ← getObj objIndex
                       relocateLoop d f __do_lift.firstArgIndex PRes.ok
                 else relocateLoop d f (slot s.tree objIndex).firstArgIndex PRes.ok) s0
-            (fun _ s' => MI d s' ∧ Mv s s' ∧ KeepAtt s s') := by
-        intro s0 ht0 hh0
-        have h0 : MI d s0 := ⟨⟨by rw [ht0]; exact h.tp.wf, by rw [ht0]; exact h.tp.root, by rw [ht0]; exact h.tp.info⟩,
+            (fun _ s' => MIJ b d s' ∧ Mv s s' ∧ KeepAtt s s') := by
+        intro s0 ht0 hh0 hrs0
+        have h0 : MIJ b d s0 := ⟨⟨⟨by rw [ht0]; exact h.tp.wf, by rw [ht0]; exact h.tp.root, by rw [ht0]; exact h.tp.info⟩,
           by rw [ht0]; exact h.rootP, by rw [ht0]; exact h.rootOp,
           fun x hx => by rw [ht0]; exact h.shape x ⟨by rw [← ht0]; exact hx.1, by rw [← ht0]; exact hx.2.1,
-            by rw [← ht0, ← hh0]; exact hx.2.2.1, by rw [← ht0]; exact hx.2.2.2⟩⟩
-        have m0 : Mv s s0 := ⟨by rw [ht0], fun x => by rw [ht0], hh0⟩
+            by rw [← ht0, ← hh0]; exact hx.2.2.1, by rw [← ht0]; exact hx.2.2.2⟩⟩, fun hb => (h.mth hb).ofTree ht0⟩
+        have m0 : Mv s s0 := ⟨by rw [ht0], fun x => by rw [ht0], hh0, hrs0⟩
         have k0 : KeepAtt s s0 := fun x hx => by rw [ht0]; exact hx
         have ho0 : live s0.tree objIndex = true := by rw [ht0]; exact ho
-        have kids : ∀ {s1 : PState}, MI d s1 → live s1.tree objIndex = true →
+        have kids : ∀ {s1 : PState}, MIJ b d s1 → live s1.tree objIndex = true →
             (Fi s1.tree objIndex = INV ∨ (live s1.tree (Fi s1.tree objIndex) = true ∧ C13.P s1.tree (Fi s1.tree objIndex) ≠ INV)) := by
           intro s1 h1 ho1
           by_cases hf : Fi s1.tree objIndex = INV
@@ -1767,9 +1810,9 @@ theorem relocate_mi (d : Bytes) : ∀ (f : Nat),
       by_cases h00 : objIndex = 0
       · rw [if_pos h00]
         refine NPs.step (s1 := { s with relocatedObjects := 0 }) (a := ()) rfl ?_
-        exact cont _ rfl rfl
+        exact cont _ rfl rfl ⟨rfl, rfl, rfl, rfl⟩
       · rw [if_neg h00]
-        exact cont s rfl rfl
+        exact cont s rfl rfl ⟨rfl, rfl, rfl, rfl⟩
     · intro s sib res h hsib
       unfold relocateLoop
       by_cases h0 : sib = invalidIndex
@@ -1800,7 +1843,7 @@ theorem relocate_mi (d : Bytes) : ∀ (f : Nat),
             · apply k1
               rw [(l.nx hn).2]; exact hp
         have loop : ∀ res', NPs (relocateLoop d f (slot s.tree sib).nextSiblingIndex res') s1
-            (fun _ s' => MI d s' ∧ Mv s s' ∧ KeepAtt s s') := by
+            (fun _ s' => MIJ b d s' ∧ Mv s s' ∧ KeepAtt s s') := by
           intro res'
           exact (ih.2 _ res' h1 hnext).mono (fun a s' hq => ⟨hq.1, m1.trans hq.2.1, k1.trans hq.2.2⟩)
         cases r with
@@ -1821,8 +1864,12 @@ theorem MI.ofTree {d : Bytes} {s s' : PState} (h : MI d s) (ht : s'.tree = s.tre
      by rw [← ht, ← hh]; exact hx.2.2.1, by rw [← ht]; exact hx.2.2.2⟩⟩
 
 /-- the `for ; ; p.resolvePasses++` loop of `ParseAML`: `mergeScopeDirectives` and `relocateNamedObjects` in turn -/
-theorem resolveLoopPasses_np (d : Bytes) (fuel : Nat) : ∀ (n : Nat) {s : PState}, MI d s →
-    NPs (resolveLoopPasses d fuel n) s (fun _ s' => MI d s' ∧ Shr s s') := by
+theorem MIJ.ofTree {d : Bytes} {s s' : PState} (h : MIJ b d s) (ht : s'.tree = s.tree) (hh : s'.tableHandle = s.tableHandle) :
+    MIJ b d s' := ⟨h.toMI.ofTree ht hh, fun hb => (h.mth hb).ofTree ht⟩
+
+/-- the `for ; ; p.resolvePasses++` loop of `ParseAML`: `mergeScopeDirectives` and `relocateNamedObjects` in turn -/
+theorem resolveLoopPasses_np (d : Bytes) (fuel : Nat) : ∀ (n : Nat) {s : PState}, MIJ b d s →
+    NPs (resolveLoopPasses d fuel n) s (fun _ s' => MIJ b d s' ∧ Shr s s') := by
   intro n
   induction n with
   | zero => intro s _; unfold resolveLoopPasses; exact NPs.fuel
@@ -1847,7 +1894,7 @@ theorem resolveLoopPasses_np (d : Bytes) (fuel : Nat) : ∀ (n : Nat) {s : PStat
         · exact NPs.pure ⟨h2, sh2⟩
         · refine NPs.step (s1 := { s2 with resolvePasses := u32 (s2.resolvePasses + 1) }) (a := ()) rfl ?_
           have := ih (s := { s2 with resolvePasses := u32 (s2.resolvePasses + 1) }) (h2.ofTree rfl rfl)
-          exact this.mono (fun _ s' hq' => ⟨hq'.1, sh2.trans ⟨hq'.2.size, hq'.2.live, hq'.2.handle⟩⟩)
+          exact this.mono (fun _ s' hq' => ⟨hq'.1, sh2.trans ⟨hq'.2.size, hq'.2.live, hq'.2.handle, hq'.2.rs⟩⟩)
 
 /-! ## `connectNamedObjArgs` keeps the merge invariant -/
 
@@ -1907,18 +1954,19 @@ theorem MI.reloc' {d : Bytes} {s s2 : PState} (h : MI d s) (h2 : TP s2) (m2 : Mv
 
 /-- `attachSiblingsAsArgs` without parent siblings, on a named non-scope-block object with arguments -/
 theorem attach_mi {d : Bytes} (parentObj targetObj : Nat) :
-    ∀ (n sib0 : Nat) {s : PState}, MI d s → live s.tree targetObj = true →
+    ∀ (n sib0 : Nat) {s : PState}, MIJ b d s → live s.tree targetObj = true →
       (∃ fl, opFlags (slot s.tree targetObj).infoIndex = some fl ∧ hasFlag fl flagNamed = true) →
       (slot s.tree targetObj).opcode ≠ opIntScopeBlock → Fi s.tree targetObj ≠ INV → sib0 = Nx s.tree targetObj →
-      NPs (attachSiblingsAsArgs parentObj targetObj false n sib0) s (fun _ s' => MI d s' ∧ Mv s s') := by
+      (b → (slot s.tree targetObj).opcode ≠ opMethod) →
+      NPs (attachSiblingsAsArgs parentObj targetObj false n sib0) s (fun _ s' => MIJ b d s' ∧ Mv s s') := by
   intro n
   induction n with
   | zero =>
-    intro sib0 s h _ _ _ _ _
+    intro sib0 s h _ _ _ _ _ _
     unfold attachSiblingsAsArgs
     exact NPs.pure ⟨h, Mv.refl s⟩
   | succ n ih =>
-    intro sib0 s h ht hnamed hnsb hfi hsib
+    intro sib0 s h ht hnamed hnsb hfi hsib hnM
     have w := h.tp.wf
     have hinv : ∀ j, live s.tree j = true → j ≠ INV := fun j hj => live_ne_INV w.size_le hj
     unfold attachSiblingsAsArgs
@@ -1967,7 +2015,12 @@ theorem attach_mi {d : Bytes} (parentObj targetObj : Nat) :
         rcases dir_kids w hx.1 hx.2.2.2 shx ht (by rw [← hpp]; exact e) with e' | e'
         · exact hfi (by rw [e']; exact shx.nkids)
         · exact hnsb (by rw [e']; exact shx.cop)
-      have hi2 : MI d s2 := h.reloc' h2 m2 sp2 ht (named_not_dir h hnamed) hfi hSl hpl hnd hP2 hFL2 hNx2
+      have hi2 : MIJ b d s2 := ⟨h.toMI.reloc' h2 m2 sp2 ht (named_not_dir h.toMI hnamed) hfi hSl hpl hnd hP2 hFL2 hNx2, fun hb =>
+        (h.mth hb).move w m2.live sp2 hSl hpl ht hP2 (fun x h1 h2 => (hFL2 x h1 h2).1) hNx2
+          (by
+            have hplt : live s.tree (C13.P s.tree targetObj) = true := by rw [← hpp]; exact hpl
+            rw [hpp]; exact (h.mth hb).parent_not_method w ht hplt (Or.inl ⟨hfi, hnsb⟩))
+          (hnM hb) (Or.inl hfi)⟩
       have ht2 : live s2.tree targetObj = true := by rw [m2.live]; exact ht
       have hS2 : live s2.tree sib0 = true := by rw [m2.live]; exact hSl
       have hfi2 : Fi s2.tree targetObj ≠ INV := fi_ne_of_child h2.wf ht2 hS2 (by rw [hP2, if_pos rfl])
@@ -1990,6 +2043,7 @@ theorem attach_mi {d : Bytes} (parentObj targetObj : Nat) :
       have := ih (Nx s.tree sib0) hi2 ht2
         (by obtain ⟨fl, hfl, hnm⟩ := hnamed; exact ⟨fl, by rw [pay_info (sp2.pay targetObj)]; exact hfl, hnm⟩)
         (by rw [pay_opcode (sp2.pay targetObj)]; exact hnsb) hfi2 hnxt
+        (fun hb => by rw [pay_opcode (sp2.pay targetObj)]; exact hnM hb)
       exact this.mono (fun _ s' hq => ⟨hq.1, m2.trans hq.2⟩)
 
 /-- a payload update of a slot that is neither a directive nor the name object of one keeps the merge invariant
@@ -2021,9 +2075,9 @@ theorem MI.upd' {d : Bytes} {s s1 : PState} (h : MI d s) (h1 : TP s1) (m1 : Mv s
     exact ⟨off, len, by rw [sl.fi, hoth _ hn]; exact hv, he⟩
 
 /-- one iteration of the `connectNamedObjArgs` loop keeps the merge invariant -/
-theorem connectNamedStep_mi (d : Bytes) {s : PState} (h : MI d s) {obj argObj : Nat} (ho : live s.tree obj = true)
+theorem connectNamedStep_mi (d : Bytes) {s : PState} (h : MIJ b d s) {obj argObj : Nat} (ho : live s.tree obj = true)
     (ha : live s.tree argObj = true) :
-    NPs (connectNamedStep d obj argObj) s (fun _ s' => MI d s' ∧ Mv s s') := by
+    NPs (connectNamedStep d obj argObj) s (fun _ s' => MIJ b d s' ∧ Mv s s') := by
   have htp := h.tp
   unfold connectNamedStep
   refine NPs.step (getObj_live ha) ?_
@@ -2075,23 +2129,36 @@ theorem connectNamedStep_mi (d : Bytes) {s : PState} (h : MI d s) {obj argObj : 
           rw [hs1]; show slot (setAt s.tree _ _) _ = _
           rw [slot_setAt', if_pos ⟨rfl, hlt⟩]
         have hnamed : ∃ fl, opFlags (slot s.tree argObj).infoIndex = some fl ∧ hasFlag fl flagNamed = true := ⟨fl, hfl, hnm⟩
-        have hi1 : MI d s1 := h.upd' h1 m1 sl1 hoth1 (by rw [hself1, hfvd]; exact ⟨rfl, rfl⟩) (named_not_dir h hnamed)
-          (fun x hx e => hfi (by rw [← e]; exact (h.shape x hx).nkids))
+        have hi1 : MIJ b d s1 := ⟨h.toMI.upd' h1 m1 sl1 hoth1 (by rw [hself1, hfvd]; exact ⟨rfl, rfl⟩) (named_not_dir h.toMI hnamed)
+          (fun x hx e => hfi (by rw [← e]; exact (h.shape x hx).nkids)), fun hb =>
+          (h.mth hb).upd htp.wf sl1 hoth1 (by rw [hself1, hfvd]) (by rw [hself1, hfvd]) (Or.inl (by rw [hself1, hfvd]))
+            (Or.inl (by rw [hself1, hfvd]))⟩
         rw [opArgCount_of_info hinfo]
         refine NPs.step (optP_ex _ s1) ?_
-        refine NPs.bind (firstTermArg_np _ hinfo _ _ _ s1) ?_
+        refine NPs.bind (firstTermArg_np2 hinfo _ s1) ?_
         intro ti s2 hs2
+        obtain ⟨hs2, hti⟩ := hs2
         subst hs2
         have ha1 : live s2.tree argObj = true := by rw [m1.live]; exact ha
         obtain ⟨k, ek⟩ := numArgs_np h1 ha1
         refine NPs.step ek ?_
         split
         · exact NPs.pure ⟨hi1, m1⟩
-        · refine NPs.step (nextOf_live ha1) ?_
+        · rename_i hcnt
+          refine NPs.step (nextOf_live ha1) ?_
           have hinfo1 : (slot s2.tree argObj).infoIndex = (slot s.tree argObj).infoIndex := by rw [hself1, hfvd]
           have hop1 : (slot s2.tree argObj).opcode = (slot s.tree argObj).opcode := by rw [hself1, hfvd]
+          -- a `Method` has no term arguments: nothing is attached to it
+          have hnM : b → (slot s2.tree argObj).opcode ≠ opMethod := by
+            intro hb ho
+            obtain ⟨k1, k2, k3, mk⟩ := (h.mth hb).mths argObj ha (by rw [← hop1]; exact ho)
+            apply hcnt
+            right
+            rw [mk.im] at hti ⊢
+            rw [hti method_noTerm.2]
+            exact Nat.le_refl _
           have := attach_mi (d := d) obj argObj (argCnt (slot s.tree argObj).infoIndex - ti) (Nx s2.tree argObj) hi1 ha1
-            ⟨fl, by rw [hinfo1]; exact hfl, hnm⟩ (by rw [hop1]; exact hnsb) (by rw [sl1.fi]; exact hfi) rfl
+            ⟨fl, by rw [hinfo1]; exact hfl, hnm⟩ (by rw [hop1]; exact hnsb) (by rw [sl1.fi]; exact hfi) rfl hnM
           refine NPs.bind this ?_
           intro res s3 hq
           split
@@ -2100,10 +2167,10 @@ theorem connectNamedStep_mi (d : Bytes) {s : PState} (h : MI d s) {obj argObj : 
 
 /-- `connectNamedObjArgs` and its argument loop keep the merge invariant -/
 theorem connectNamed_mi (d : Bytes) : ∀ (f : Nat),
-    (∀ {s : PState} (objIndex : Nat), MI d s → live s.tree objIndex = true →
-      NPs (connectNamedObjArgs d f objIndex) s (fun _ s' => MI d s' ∧ Mv s s')) ∧
-    (∀ {s : PState} (obj argIndex : Nat), MI d s → live s.tree obj = true → (argIndex = INV ∨ live s.tree argIndex = true) →
-      NPs (connectNamedLoop d f obj argIndex) s (fun _ s' => MI d s' ∧ Mv s s')) := by
+    (∀ {s : PState} (objIndex : Nat), MIJ b d s → live s.tree objIndex = true →
+      NPs (connectNamedObjArgs d f objIndex) s (fun _ s' => MIJ b d s' ∧ Mv s s')) ∧
+    (∀ {s : PState} (obj argIndex : Nat), MIJ b d s → live s.tree obj = true → (argIndex = INV ∨ live s.tree argIndex = true) →
+      NPs (connectNamedLoop d f obj argIndex) s (fun _ s' => MIJ b d s' ∧ Mv s s')) := by
   intro f
   induction f with
   | zero =>
@@ -2163,8 +2230,8 @@ def treePasses (d : Bytes) (fuel : Nat) : P Bool := do
     modify fun s => { s with resolvePasses := 1 }
     resolveLoopPasses d fuel fuel
 
-theorem treePasses_np (d : Bytes) (fuel : Nat) {s : PState} (h : MI d s) :
-    NPs (treePasses d fuel) s (fun _ s' => MI d s' ∧ Shr s s') := by
+theorem treePasses_np (d : Bytes) (fuel : Nat) {s : PState} (h : MIJ b d s) :
+    NPs (treePasses d fuel) s (fun _ s' => MIJ b d s' ∧ Shr s s') := by
   unfold treePasses
   refine NPs.bind ((connectNamed_mi d fuel).1 0 h h.tp.root) ?_
   intro r s1 hq
@@ -2173,7 +2240,7 @@ theorem treePasses_np (d : Bytes) (fuel : Nat) {s : PState} (h : MI d s) :
   · exact NPs.pure ⟨h1, Shr.ofMv m1⟩
   · refine NPs.step (s1 := { s1 with resolvePasses := 1 }) (a := ()) rfl ?_
     have := resolveLoopPasses_np d fuel fuel (s := { s1 with resolvePasses := 1 }) (h1.ofTree rfl rfl)
-    exact this.mono (fun _ s' hq' => ⟨hq'.1, (Shr.ofMv m1).trans ⟨hq'.2.size, hq'.2.live, hq'.2.handle⟩⟩)
+    exact this.mono (fun _ s' hq' => ⟨hq'.1, (Shr.ofMv m1).trans ⟨hq'.2.size, hq'.2.live, hq'.2.handle, hq'.2.rs⟩⟩)
 
 /-! ## the executable checks of `Model/AmlShapes.lean` imply the hypotheses -/
 
